@@ -1,10 +1,10 @@
 package drive
 
 import (
-	"github.com/golang/protobuf/proto" //nolint:staticcheck
-	fpb "github.com/anoideaopen/foundation/proto"
 	"encoding/json"
 	"fmt"
+	fpb "github.com/anoideaopen/foundation/proto"
+	"github.com/golang/protobuf/proto" //nolint:staticcheck
 	"strconv"
 	"strings"
 
